@@ -382,6 +382,9 @@ class MultiplexIterator(Iterator[_ValueT], types.Stoppable, types.Recoverable):
   def maybe_stop(self):
     if isinstance(self._iterator, types.Stoppable):
       self._iterator.maybe_stop()
+    elif hasattr(self._iterator, 'close'):
+      # An in-process generator is suspended, close it to run its clean-ups.
+      self._iterator.close()
     if self._thread_pool is not None:
       self._thread_pool.shutdown()
 
